@@ -149,8 +149,10 @@ Print Assumptions C13_reconstructed_majority_is_for_stored_block.
 
 (* Non-vacuity: a chain with InitialHeight 5, three validators of power 10; a fresh node (empty
    store, state at 0) receives blocks 5 and 6 from peer 1 and syncs exactly ONE block
-   (LastBlockHeight = InitialHeight).  The premises hold and the switch yields height 6 with a
-   LastCommit. *)
+   (LastBlockHeight = InitialHeight), and executing that block changes the validator set
+   (membership and order): at the hand-over LastValidators (the set that signed block 5, against
+   which the seen commit is replayed) differs from Validators (the set of height 6).  The
+   premises hold and the switch yields height 6 with a LastCommit. *)
 Definition ex_pk (k : key) : addr := k + 1.
 Definition ex_vals : list validator :=
   [ {| v_addr := 1; v_key := 0; v_power := 10 |}; {| v_addr := 2; v_key := 1; v_power := 10 |};
@@ -171,12 +173,17 @@ Definition ex_ops : list (op isig) :=
   [ OStatus 1 5 6; OMakeRequester; OMakeRequester; OPick 5 1; OPick 6 1; OBlock 1 ex_b5; OBlock 1 ex_b6;
     OProcess ].
 Definition ex_vb (st : sstate) (b : block isig) : bool := b_height b =? next_height 5 st.
-Definition ex_ab (st : sstate) (b : block isig) : option (list validator * Z) := Some (st_vals st, 0).
+(* executing block 5 changes the validator set: a new strongest validator comes first, one leaves *)
+Definition ex_vals2 : list validator :=
+  [ {| v_addr := 4; v_key := 3; v_power := 25 |}; {| v_addr := 1; v_key := 0; v_power := 10 |};
+    {| v_addr := 3; v_key := 2; v_power := 10 |} ].
+Definition ex_ab (st : sstate) (b : block isig) : option (list validator * Z) := Some (ex_vals2, 0).
 
 Example C13_switch_to_consensus_nonvacuous :
   let n' := run ex_vb ex_ab (verify_commit ideal_verify) ex_ops ex_n0 in
   (forall st b, ex_vb st b = true -> b_height b = next_height 5 st) /\
   st_height (n_state n') = 5 /\ List.length (n_store n') = 1%nat /\
+  st_last_vals (n_state n') = ex_vals /\ st_vals (n_state n') = ex_vals2 /\ ex_vals <> ex_vals2 /\
   Forall (ev_good isig ex_pk) (n_log n') /\
   exists cs0 cs',
     new_state ideal_verify ex_pk 5 (n_store ex_n0) (n_state ex_n0) = Some cs0 /\
@@ -185,6 +192,7 @@ Example C13_switch_to_consensus_nonvacuous :
 Proof.
   cbv zeta. split; [intros st b H; apply Z.eqb_eq; exact H|].
   split; [vm_compute; reflexivity|]. split; [vm_compute; reflexivity|].
+  split; [vm_compute; reflexivity|]. split; [vm_compute; reflexivity|]. split; [discriminate|].
   split.
   - assert (E : n_log (run ex_vb ex_ab (verify_commit ideal_verify) ex_ops ex_n0) =
                 [E_saved (n_state ex_n0) ex_b5 ex_b6]) by (vm_compute; reflexivity).
